@@ -1082,3 +1082,130 @@ case("c03-refactor-nofm-comprehensions", "C03", "refactor", [(RD_, """    comple
     failed_ids = [u.id for u in ups if u.status not in CONTINUABLE_STATUSES and u.status in HALT_STATUSES]
     active_ids = [u.id for u in ups if u.status not in CONTINUABLE_STATUSES and u.status not in HALT_STATUSES]
 """)])
+
+# ---------------------------------------------------------------- structural refactors (behaviour-preserving) for C05, C11, C17, C18
+case("c18-refactor-mark-helper", "C18", "refactor", [(H + "signal_stage.py", """                with self.repository.transaction(self.queue) as txn:
+                    txn.store_stage(stage)
+                    if message.message_id:
+                        txn.mark_message_processed(
+                            message_id=message.message_id,
+                            handler_type="SignalStage",
+                            execution_id=message.execution_id,
+                        )
+            else:
+                # WCP-23: Transient signal - discard""", """                def _store_and_mark(t):
+                    t.store_stage(stage)
+                    if message.message_id:
+                        t.mark_message_processed(
+                            message_id=message.message_id,
+                            handler_type="SignalStage",
+                            execution_id=message.execution_id,
+                        )
+
+                with self.repository.transaction(self.queue) as txn:
+                    _store_and_mark(txn)
+            else:
+                # WCP-23: Transient signal - discard""")])
+case("c18-refactor-push-order", "C18", "refactor", [(H + "signal_stage.py", """                with self.repository.transaction(self.queue) as txn:
+                    txn.store_stage(stage)
+                    if message.message_id:
+                        txn.mark_message_processed(
+                            message_id=message.message_id,
+                            handler_type="SignalStage",
+                            execution_id=message.execution_id,
+                        )
+                    if suspended_task:""", """                with self.repository.transaction(self.queue) as txn:
+                    if message.message_id:
+                        txn.mark_message_processed(
+                            message_id=message.message_id,
+                            handler_type="SignalStage",
+                            execution_id=message.execution_id,
+                        )
+                    txn.store_stage(stage)
+                    if suspended_task:""")])
+case("c17-refactor-messages-list", "C17", "refactor", [(H + "workflow_control.py", """                for stage in to_cancel:
+                    txn.push_message(
+                        CancelStage(
+                            execution_type=message.execution_type,
+                            execution_id=message.execution_id,
+                            stage_id=stage.id,
+                        )
+                    )
+                txn.push_message(
+                    CompleteWorkflow(
+                        execution_type=message.execution_type,
+                        execution_id=message.execution_id,
+                    )
+                )
+""", """                fan_out = [
+                    CancelStage(
+                        execution_type=message.execution_type,
+                        execution_id=message.execution_id,
+                        stage_id=stage.id,
+                    )
+                    for stage in to_cancel
+                ]
+                for msg in fan_out:
+                    txn.push_message(msg)
+                txn.push_message(
+                    CompleteWorkflow(
+                        execution_type=message.execution_type,
+                        execution_id=message.execution_id,
+                    )
+                )
+""")])
+case("c17-refactor-complete-first", "C17", "refactor", [(H + "workflow_control.py", """                for stage in to_cancel:
+                    txn.push_message(
+                        CancelStage(
+                            execution_type=message.execution_type,
+                            execution_id=message.execution_id,
+                            stage_id=stage.id,
+                        )
+                    )
+                txn.push_message(
+                    CompleteWorkflow(
+                        execution_type=message.execution_type,
+                        execution_id=message.execution_id,
+                    )
+                )
+""", """                completion = CompleteWorkflow(
+                    execution_type=message.execution_type,
+                    execution_id=message.execution_id,
+                )
+                for stage in to_cancel:
+                    txn.push_message(
+                        CancelStage(
+                            execution_type=message.execution_type,
+                            execution_id=message.execution_id,
+                            stage_id=stage.id,
+                        )
+                    )
+                txn.push_message(completion)
+""")])
+case("c05-refactor-requeue-helper", "C05", "refactor", [(H + "complete_workflow.py", """        # Create new message with incremented retry count
+        new_message = CompleteWorkflow(
+            execution_type=message.execution_type,
+            execution_id=message.execution_id,
+            retry_count=retry_count + 1,
+        )
+        self.queue.push(new_message, self.retry_delay)
+        return None
+""", """        self._requeue(message, retry_count)
+        return None
+
+    def _requeue(self, message: CompleteWorkflow, retry_count: int) -> None:
+        new_message = CompleteWorkflow(
+            execution_type=message.execution_type,
+            execution_id=message.execution_id,
+            retry_count=retry_count + 1,
+        )
+        self.queue.push(new_message, self.retry_delay)
+""")])
+case("c05-refactor-early-continuable", "C05", "refactor", [(H + "complete_workflow.py", """        # All succeeded/skipped/failed_continue -> SUCCEEDED
+        if all(s in CONTINUABLE_STATUSES for s in statuses):
+            return WorkflowStatus.SUCCEEDED
+""", """        # All succeeded/skipped/failed_continue -> SUCCEEDED
+        all_continuable = all(s in CONTINUABLE_STATUSES for s in statuses)
+        if all_continuable:
+            return WorkflowStatus.SUCCEEDED
+""")])
